@@ -10,6 +10,27 @@ def addPart_index_guard : String := "part.Index >= ps.total"
 /-- cond types/part_set.go PartSet.AddPart -/
 def addPart_position_guard : String := "part.Proof.Index != int64(part.Index) || part.Proof.Total != int64(ps.total)"
 
+/-- cond consensus/state.go State.finalizeCommit -/
+def c01_finalize_hash : String := "!block.HashesTo(blockID.Hash)"
+
+/-- cond consensus/state.go State.finalizeCommit -/
+def c01_finalize_step_guard : String := "cs.Height != height || cs.Step != cstypes.RoundStepCommit"
+
+/-- has consensus/state.go State.finalizeCommit -/
+def c01_finalize_validates : Bool := true
+
+/-- has types/vote_set.go VoteSet.addVerifiedVote -/
+def c01_quorum_expr : Bool := true
+
+/-- cond consensus/state.go State.tryFinalizeCommit -/
+def c01_try_finalize_needs_block : String := "!cs.ProposalBlock.HashesTo(blockID.Hash)"
+
+/-- cond consensus/state.go State.tryFinalizeCommit -/
+def c01_try_finalize_needs_block_majority : String := "!ok || len(blockID.Hash) == 0"
+
+/-- has types/vote_set.go VoteSet.HasTwoThirdsAny -/
+def c01_two_thirds_any : Bool := true
+
 /-- cond consensus/state.go State.enterPrecommit -/
 def c02_guard_enterPrecommit : String := "cs.Height != height || round < cs.Round || (cs.Round == round && cstypes.RoundStepPrecommit <= cs.Step)"
 
@@ -559,6 +580,6 @@ def pv_stepPropose : Int := 1
 /-- has privval/file.go FilePV.signVote -/
 def pv_vote_persist_before_release : Bool := true
 
-def factCount : Nat := 186
+def factCount : Nat := 193
 
 end Tmv.Facts
